@@ -212,7 +212,13 @@ func (f *FBaseProcessorFunction) SendError(fctx FContext, oprot *FProtocol, kind
 func (f *FBaseProcessorFunction) sendError(ctx context.Context, fctx FContext, oprot *FProtocol, kind int32, method, message string) error {
 	err := thrift.NewTApplicationException(kind, message)
 	oprot.WriteResponseHeader(fctx)
-	oprot.WriteMessageBegin(ctx, method, thrift.EXCEPTION, 0)
+	if e := oprot.WriteMessageBegin(ctx, method, thrift.EXCEPTION, 0); e != nil {
+		// A protocol with its own write buffer (JSON) whose last flush failed,
+		// e.g. because the reply was too large, only clears that failure on
+		// the next write, which is lost. Nothing of the message begin has been
+		// written then, so it can be written again.
+		oprot.WriteMessageBegin(ctx, method, thrift.EXCEPTION, 0)
+	}
 	err.Write(ctx, oprot)
 	oprot.WriteMessageEnd(ctx)
 	oprot.Flush(ctx)
